@@ -69,6 +69,16 @@ func (r *Run) op(line string) string {
 	return out
 }
 
+// record stores a protocol line together with an implementation answer that was computed
+// beforehand (ops that shell out to the binary are executed by a worker pool).
+func (r *Run) record(line, out string) {
+	r.ops.WriteString(line)
+	r.ops.WriteByte('\n')
+	r.impl.WriteString(out)
+	r.impl.WriteByte('\n')
+	r.nOps++
+}
+
 func (r *Run) count(key string) { r.hist[key]++ }
 
 func (r *Run) sample(s string) {
